@@ -28,3 +28,600 @@ def build(pid, name, params):
         if f.__name__ == name:
             return f(params, None)
     raise KeyError(name)
+
+
+class HB(object):
+    """History builder."""
+    def __init__(self):
+        self.h = []
+        self.n = 0
+        self.nb = 0
+        self.tag = "d"
+
+    def conn(self, app=None, side=None, **kw):
+        self.n += 1
+        c = "c%d" % self.n
+        self.h.append(["connect", c])
+        if app is not None:
+            self.send(c, type="bind", appid=app, side=side, **kw)
+        return c
+
+    def send(self, c, **msg):
+        self.h.append(["send", c, msg])
+        return self
+
+    def add(self, c, phase="p", **kw):
+        self.nb += 1
+        body = "%s-%d" % (self.tag, self.nb)
+        self.send(c, type="add", phase=phase, body=body, **kw)
+        return body
+
+    def drop(self, c):
+        self.h.append(["drop", c])
+        return self
+
+    def adv(self, dt):
+        self.h.append(["adv", dt])
+        return self
+
+    def restart(self):
+        self.h.append(["restart"])
+        return self
+
+    def sweep(self):
+        self.h.append(["sweep"])
+        return self
+
+
+U = Config(usage=True)
+NU = Config(usage=False)
+CFG2 = [U, NU]
+
+
+def claimed(c):
+    return {"$claimed": c}
+
+
+def alloc(c):
+    return {"$alloc": c}
+
+
+# ---------------------------------------------------------------------------
+@family("C01", "C09")
+def c01_replay(params, tier):
+    if params is None:
+        return [{"restart": r, "busy": b, "delete": d, "usage": u}
+                for r in (0, 1) for b in (0, 1) for d in ("none", "close", "expiry") for u in (0, 1)]
+    p = params
+    out = []
+    for via in ("nameplate", "direct"):
+        b = HB()
+        b.tag = "c01%s" % via[0]
+        a = b.conn("app", "s1")
+        if via == "nameplate":
+            b.send(a, type="claim", nameplate="7")
+            mb = claimed(a)
+        else:
+            mb = "mX"
+        b.send(a, type="open", mailbox=mb)
+        b.add(a, "pake", id="i1")
+        b.add(a, "phäse\x00", id="")
+        b.add(a, "")
+        if p["busy"]:
+            o = b.conn("app2", "s1")
+            b.send(o, type="claim", nameplate="7")
+            b.send(o, type="open", mailbox=claimed(o))
+            b.add(o, "pake")
+            o2 = b.conn("app", "s3")
+            b.send(o2, type="open", mailbox="other-mailbox")
+            b.add(o2, "pake")
+        b.drop(a)
+        b.adv(100)
+        if p["restart"]:
+            b.restart()
+        if p["delete"] == "close":
+            z = b.conn("app", "s1")
+            b.send(z, type="close", mailbox=mb, mood="happy")
+        elif p["delete"] == "expiry":
+            b.adv(1300)
+        r = b.conn("app", "s2")
+        if via == "nameplate" and p["delete"] == "none":
+            b.send(r, type="claim", nameplate="7")
+            b.send(r, type="open", mailbox=claimed(r))
+        elif via == "nameplate":
+            b.send(r, type="open", mailbox=claimed(a))
+        else:
+            b.send(r, type="open", mailbox=mb)
+        b.add(r, "reply")
+        r2 = b.conn("app", "s1")
+        b.send(r2, type="open", mailbox=claimed(a) if via == "nameplate" else mb)
+        out.append(("c01_replay:%s:%s" % (via, sorted(p.items())), b.h, U if p["usage"] else NU, {}))
+    return out
+
+
+@family("C02", "C12", "C11")
+def c02_fanout(params, tier):
+    if params is None:
+        return [{"n": n, "adder_sub": a, "order": o, "usage": u}
+                for n in (1, 2, 4) for a in (0, 1) for o in ("plain", "restart-bind-sweep-open", "bind-sweep-open", "sweeps-between")
+                for u in (0, 1)]
+    p = params
+    b = HB()
+    b.tag = "c02"
+    # leave some rows of the app in the store so that sweeps visit it
+    seed = b.conn("app", "s1")
+    b.send(seed, type="claim", nameplate="9")
+    b.drop(seed)
+    if p["order"] == "restart-bind-sweep-open":
+        b.restart()
+    subs = []
+    for i in range(p["n"]):
+        subs.append(b.conn("app", "s1" if i % 2 == 0 else "s2"))
+    adder = b.conn("app", "s2")
+    other = b.conn("app2", "s1")
+    b.send(other, type="open", mailbox="mZ.1")
+    if p["order"] in ("restart-bind-sweep-open", "bind-sweep-open"):
+        b.adv(300)
+    for c in subs:
+        b.send(c, type="open", mailbox="mZ")
+    if p["adder_sub"]:
+        b.send(adder, type="open", mailbox="mZ")
+        b.add(adder, "1", side="evil")
+    else:
+        b.send(subs[0], type="add", phase="1", body="c02-first", side="evil", type_="x")
+    if p["order"] == "sweeps-between":
+        b.adv(700)
+    late = b.conn("app", "s1")
+    b.send(late, type="open", mailbox="mZ")
+    b.add(late, "2")
+    b.drop(subs[0])
+    if p["adder_sub"]:
+        b.add(adder, "3")
+    b.adv(300)
+    b.add(late, "4")
+    if len(subs) > 1:
+        b.send(subs[1], type="close", mood="happy")
+        b.add(late, "5")
+    b.adv(1000)
+    b.add(late, "6")
+    return [("c02_fanout:%s" % sorted(p.items()), b.h, U if p["usage"] else NU, {})]
+
+
+@family("C03")
+def c03_claims(params, tier):
+    if params is None:
+        return [{"restart": r, "cycle": c} for r in (0, 1) for c in ("release", "close", "expiry")]
+    p = params
+    b = HB()
+    for app in ("app", "app2", "äpp"):
+        a = b.conn(app, "s1")
+        b.send(a, type="claim", nameplate="7")
+        a2 = b.conn(app, "s1")
+        b.send(a2, type="claim", nameplate="3")
+    if p["restart"]:
+        b.restart()
+    for app in ("app", "app2"):
+        x = b.conn(app, "s2")
+        b.send(x, type="claim", nameplate="7")
+        y = b.conn(app, "s1")
+        b.send(y, type="claim", nameplate="7")      # repeat by the same side on a new connection
+    # retire "7" of app and claim it again
+    if p["cycle"] == "release":
+        for s in ("s1", "s2"):
+            r = b.conn("app", s)
+            b.send(r, type="release", nameplate="7")
+    elif p["cycle"] == "close":
+        for s in ("s1", "s2"):
+            r = b.conn("app", s)
+            b.send(r, type="close", mailbox=claimed(a if False else "c1"), mood="happy")
+    else:
+        b.h.append(["dropall"])
+        b.adv(1300)
+    n = b.conn("app", "s3")
+    b.send(n, type="claim", nameplate="7")
+    n2 = b.conn("app", "s1")
+    b.send(n2, type="claim", nameplate="7")
+    return [("c03_claims:%s" % sorted(p.items()), b.h, U, {})]
+
+
+@family("C05")
+def c05_third(params, tier):
+    if params is None:
+        return [{"first": f, "st1": s1, "st2": s2, "retries": r, "restart": rs, "via": v}
+                for f in ("claim", "open", "close")
+                for s1 in ("subscribed", "closed", "released", "disconnected", "reconnected")
+                for s2 in ("subscribed", "closed", "disconnected", "absent")
+                for r in (0, 2) for rs in (0, 1) for v in ("nameplate", "direct")]
+    p = params
+    b = HB()
+    b.tag = "c05"
+    via_np = p["via"] == "nameplate"
+    A = b.conn("app", "s1")
+    if via_np:
+        b.send(A, type="claim", nameplate="5")
+        mb = claimed(A)
+    else:
+        mb = "mC"
+    b.send(A, type="open", mailbox=mb)
+    b.add(A, "pake")
+    B = None
+    if p["st2"] != "absent":
+        B = b.conn("app", "s2")
+        if via_np:
+            b.send(B, type="claim", nameplate="5")
+        b.send(B, type="open", mailbox=mb)
+        b.add(B, "pake")
+
+    def settle(c, state):
+        if c is None:
+            return
+        if state == "closed":
+            b.send(c, type="close", mood="happy")
+        elif state == "released":
+            if via_np:
+                b.send(c, type="release")
+        elif state == "disconnected":
+            b.drop(c)
+        elif state == "reconnected":
+            b.drop(c)
+    settle(A, p["st1"])
+    settle(B, p["st2"])
+    if p["restart"]:
+        b.restart()
+    for k in range(1 + p["retries"]):
+        C = b.conn("app", "s3")
+        if p["first"] == "claim":
+            b.send(C, type="claim", nameplate="5" if via_np else "55")
+            b.send(C, type="open", mailbox=mb)
+        elif p["first"] == "open":
+            b.send(C, type="open", mailbox=mb)
+        else:
+            b.send(C, type="close", mailbox=mb, mood="scary")
+            C2 = b.conn("app", "s3")
+            b.send(C2, type="open", mailbox=mb)
+        b.send(C, type="add", phase="x", body="c05-intruder-%d" % k)
+    # a fourth side too
+    D = b.conn("app", "s4")
+    b.send(D, type="open", mailbox=mb)
+    # the first two keep their access: live subscriptions still get adds
+    if not p["restart"]:
+        for c, stt in ((A, p["st1"]), (B, p["st2"])):
+            if c is not None and stt in ("subscribed", "released"):
+                b.add(c, "after")
+    return [("c05_third:%s" % sorted(p.items()), b.h, U, {})]
+
+
+@family("C05", "C14")
+def c05_first_two_return(params, tier):
+    """F7: after a third side was refused, a first-two side reconnects."""
+    if params is None:
+        return [{"cmd": c} for c in ("open", "claim", "close")]
+    p = params
+    b = HB()
+    A = b.conn("app", "s1")
+    b.send(A, type="claim", nameplate="5")
+    b.send(A, type="open", mailbox=claimed(A))
+    B = b.conn("app", "s2")
+    b.send(B, type="claim", nameplate="5")
+    b.send(B, type="open", mailbox=claimed(A))
+    C = b.conn("app", "s3")
+    b.send(C, type="open", mailbox=claimed(A))
+    b.drop(A)
+    A2 = b.conn("app", "s1")
+    if p["cmd"] == "open":
+        b.send(A2, type="open", mailbox=claimed(A))
+    elif p["cmd"] == "claim":
+        b.send(A2, type="claim", nameplate="5")
+    else:
+        b.send(A2, type="close", mailbox=claimed(A), mood="happy")
+    return [("c05_first_two_return:%s" % p["cmd"], b.h, U, {})]
+
+
+@family("C07", "C06")
+def c07_holds_several(params, tier):
+    if params is None:
+        return [{"who": w, "order": o, "usage": u, "listing": l}
+                for w in ("same-side", "same-side-other-app", "someone-else")
+                for o in ("close-first", "release-first", "both-hold")
+                for u in (0, 1) for l in (0, 1)]
+    p = params
+    b = HB()
+    A1 = b.conn("app", "s1")
+    b.send(A1, type="claim", nameplate="1")
+    b.send(A1, type="open", mailbox=claimed(A1))
+    # the other nameplate "2" (Y), held by ...
+    if p["who"] == "same-side":
+        Y = b.conn("app", "s1")
+    elif p["who"] == "same-side-other-app":
+        Y = b.conn("app2", "s1")
+    else:
+        Y = b.conn("app", "s2")
+    b.send(Y, type="claim", nameplate="2")
+    Y3 = b.conn("app", "s1")
+    b.send(Y3, type="allocate")
+    L = b.conn("app", "s4")
+    b.send(L, type="list")
+    B = b.conn("app", "s2")
+    b.send(B, type="claim", nameplate="1")
+    b.send(B, type="open", mailbox=claimed(A1))
+    if p["order"] == "release-first":
+        b.send(A1, type="release")
+        b.send(L, type="list")
+        b.send(B, type="release", nameplate="1")
+        b.send(L, type="list")
+    elif p["order"] == "close-first":
+        b.send(A1, type="close", mood="happy")
+        b.send(L, type="list")
+        b.send(B, type="release")
+    b.send(A1, type="close", mood="happy") if p["order"] != "close-first" else None
+    b.send(L, type="list")
+    b.send(B, type="close", mood="happy")
+    b.send(L, type="list")
+    # Y must be untouched: still listed in its app, still claimable by its holder with the same id
+    Ly = b.conn("app2" if p["who"] == "same-side-other-app" else "app", "s4")
+    b.send(Ly, type="list")
+    Y2 = b.conn("app2" if p["who"] == "same-side-other-app" else "app", "s1" if p["who"] != "someone-else" else "s2")
+    b.send(Y2, type="claim", nameplate="2")
+    b.send(Y2, type="release")
+    b.send(Ly, type="list")
+    # reclaim after release of a still-live nameplate
+    R = b.conn("app", "s1")
+    b.send(R, type="claim", nameplate="8")
+    R2 = b.conn("app", "s2")
+    b.send(R2, type="claim", nameplate="8")
+    b.send(R, type="release")
+    R3 = b.conn("app", "s1")
+    b.send(R3, type="claim", nameplate="8")
+    S = b.conn("app", "s3")
+    b.send(S, type="release", nameplate="8")        # stranger
+    b.send(L, type="list")
+    b.send(R2, type="release")
+    b.send(L, type="list")
+    X = b.conn("app", "s3")
+    b.send(X, type="allocate")
+    cfg = Config(usage=bool(p["usage"]), allow_list=bool(p["listing"]))
+    return [("c07_holds_several:%s" % sorted(p.items()), b.h, cfg, {})]
+
+
+@family("C08", "C17")
+def c08_close_product(params, tier):
+    if params is None:
+        return [{"a_holds": a, "b_holds": bb, "np": n, "resend": r, "msgs": m, "other": o, "usage": u}
+                for a in (0, 1) for bb in (0, 1) for n in (0, 1) for r in (0, 1) for m in (0, 1) for o in (0, 1) for u in (0, 1)
+                if n or (a == 0 and bb == 0)]
+    p = params
+    b = HB()
+    b.tag = "c08"
+    A = b.conn("app", "s1")
+    B = b.conn("app", "s2")
+    if p["np"]:
+        b.send(A, type="claim", nameplate="4")
+        b.send(B, type="claim", nameplate="4")
+        mb = claimed(A)
+    else:
+        mb = "mD"
+    if p["other"]:
+        O = b.conn("app", "s1")
+        b.send(O, type="claim", nameplate="6")
+        O2 = b.conn("app", "s2")
+        b.send(O2, type="open", mailbox="mE")
+        b.add(O2, "keep")
+    b.send(A, type="open", mailbox=mb)
+    b.send(B, type="open", mailbox=mb)
+    if p["msgs"]:
+        b.add(A, "pake")
+        b.add(B, "pake")
+    if p["np"] and not p["a_holds"]:
+        b.send(A, type="release")
+    if p["np"] and not p["b_holds"]:
+        b.send(B, type="release")
+    b.send(A, type="close", mood="happy")
+    if p["msgs"]:
+        b.add(B, "after-a-closed")
+    if p["resend"]:
+        A2 = b.conn("app", "s1")
+        b.send(A2, type="close", mailbox=mb, mood="happy")
+    b.send(B, type="close", mood="happy")
+    if p["resend"]:
+        B2 = b.conn("app", "s2")
+        b.send(B2, type="close", mailbox=mb, mood="happy")
+        A3 = b.conn("app", "s1")
+        b.send(A3, type="close", mailbox=mb, mood="lonely")
+    Z = b.conn("app", "s1")
+    b.send(Z, type="open", mailbox=mb)
+    if p["other"]:
+        Z2 = b.conn("app", "s1")
+        b.send(Z2, type="open", mailbox="mE")
+        Z3 = b.conn("app", "s1")
+        b.send(Z3, type="claim", nameplate="6")
+    return [("c08_close_product:%s" % sorted(p.items()), b.h, U if p["usage"] else NU, {})]
+
+
+@family("C12", "C13")
+def c12_cutoff(params, tier):
+    if params is None:
+        offs = [-60, -1, -0.125, 0, 0.125, 1, 60]
+        return [{"off": o, "act": a, "sub": s, "usage": u} for o in offs for a in ("open", "add", "claim", "allocate")
+                for s in (0, 1) for u in (0, 1)]
+    p = params
+    b = HB()
+    b.tag = "c12"
+    # sweeps fire at 0, 300, 600, 900, ...; place the last activity at 900 - 660 + off = 240 + off
+    N = b.conn("app", "s1")            # neighbour, old, must go at 900
+    b.send(N, type="claim", nameplate="1")
+    b.send(N, type="open", mailbox=claimed(N))
+    b.add(N, "old")
+    N2 = b.conn("app2", "s1")
+    b.send(N2, type="open", mailbox="mF.1")
+    b.add(N2, "old")
+    b.drop(N)
+    b.drop(N2)
+    S = None
+    if p["sub"]:
+        S = b.conn("app", "s2")
+        b.send(S, type="open", mailbox="mSub")
+        b.add(S, "kept")
+    t = 240 + p["off"]
+    b.adv(t)
+    A = b.conn("app", "s1")
+    if p["act"] == "open":
+        b.send(A, type="open", mailbox="mG")
+    elif p["act"] == "add":
+        b.send(A, type="open", mailbox="mG")
+        b.add(A, "fresh")
+    elif p["act"] == "claim":
+        b.send(A, type="claim", nameplate="2")
+    else:
+        b.send(A, type="allocate")
+    b.drop(A)
+    b.adv(900 - t + 1)
+    # after the sweep at 900: subscriber still served
+    if S is not None:
+        b.add(S, "still")
+        b.adv(3000)
+        b.add(S, "still2")
+    return [("c12_cutoff:%s" % sorted(p.items()), b.h, U if p["usage"] else NU, {})]
+
+
+@family("C15", "C16")
+def c15_paths(params, tier):
+    if params is None:
+        return [{"sides": n, "mood1": m1, "mood2": m2, "path": pa, "blur": bl}
+                for n in (1, 2, 3) for m1 in (None, "happy", "lonely", "scary", "errory", "weird")
+                for m2 in ("happy", "scary", "errory") for pa in ("close", "release-then-close", "expiry", "close-np-held")
+                for bl in (None, 61)]
+    p = params
+    b = HB()
+    sides = ["s1", "s2", "s3"][:p["sides"]]
+    conns = []
+    b.adv(7.125)
+    for i, s in enumerate(sides):
+        c = b.conn("app", s, client_version=["python", "0.%d" % i])
+        b.send(c, type="claim", nameplate="3")
+        b.send(c, type="open", mailbox=claimed(conns[0] if conns else c))
+        conns.append(c)
+        b.adv(3.5)
+    moods = [p["mood1"], p["mood2"], "happy"]
+    if p["path"] == "expiry":
+        b.h.append(["dropall"])
+        b.adv(1500)
+    else:
+        for i, c in enumerate(conns[:2]):
+            if p["path"] == "release-then-close":
+                b.send(c, type="release")
+                b.adv(1)
+            msg = {"type": "close"}
+            if moods[i] is not None:
+                msg["mood"] = moods[i]
+            b.send(c, **msg)
+            b.adv(2.25)
+    # a lone standalone mailbox and a re-sent close of something gone
+    L = b.conn("app", "s1")
+    b.send(L, type="open", mailbox="mH")
+    b.adv(0.5)
+    b.send(L, type="close", mood="lonely")
+    L2 = b.conn("app", "s1")
+    b.send(L2, type="close", mailbox="mH", mood="lonely")
+    cfg = Config(usage=True, blur=p["blur"])
+    return [("c15_paths:%s" % sorted(p.items(), key=str), b.h, cfg, {})]
+
+
+C17_STATES = ["unbound", "bound", "allocated", "claimed", "claim-crowded", "claim-reclaimed", "released",
+              "opened", "open-crowded", "closed", "close-crowded", "stale", "allocated+claimed+opened"]
+
+C17_CMDS = [
+    {"no": "type"}, {}, {"type": "frob"}, {"type": ""}, {"type": "ping"}, {"type": "ping", "ping": 7},
+    {"type": "ping", "ping": {"a": [1, None, "ü"]}, "id": "x"},
+    {"type": "bind"}, {"type": "bind", "appid": "app"}, {"type": "bind", "side": "s1"},
+    {"type": "bind", "appid": "app", "side": "s1"}, {"type": "bind", "appid": "", "side": ""},
+    {"type": "list"}, {"type": "allocate"}, {"type": "claim"}, {"type": "claim", "nameplate": "5"},
+    {"type": "claim", "nameplate": "77"}, {"type": "release"}, {"type": "release", "nameplate": "5"},
+    {"type": "release", "nameplate": "nope"}, {"type": "open"}, {"type": "open", "mailbox": "mQ"},
+    {"type": "open", "mailbox": "mNew"}, {"type": "add"}, {"type": "add", "phase": "p"}, {"type": "add", "body": "b"},
+    {"type": "add", "phase": "p", "body": "c17-body", "id": "z"}, {"type": "close"}, {"type": "close", "mood": "happy"},
+    {"type": "close", "mailbox": "mQ"}, {"type": "close", "mailbox": "mNew", "mood": None},
+]
+
+
+@family("C17")
+def c17_state_x_cmd(params, tier):
+    if params is None:
+        return [{"state": s, "cfg": i % 3} for i, s in enumerate(C17_STATES)]
+    p = params
+    out = []
+    cfgs = [Config(usage=True), Config(usage=False, motd="motd ü", advertise="9.9", signal_error="err"),
+            Config(usage=True, blur=60, allow_list=False, motd="")]
+    for ci, cmd in enumerate(C17_CMDS):
+        b = HB()
+        st = p["state"]
+        # two other sides occupy nameplate 5 / mailbox mQ so that a third is crowded
+        def crowd():
+            for s in ("s8", "s9"):
+                o = b.conn("app", s)
+                b.send(o, type="claim", nameplate="5")
+                b.send(o, type="open", mailbox="mQ")
+        X = b.conn()
+        if st != "unbound":
+            b.send(X, type="bind", appid="app", side="s1")
+        if st == "allocated":
+            b.send(X, type="allocate")
+        elif st == "claimed":
+            b.send(X, type="claim", nameplate="5")
+        elif st == "claim-crowded":
+            crowd()
+            b.send(X, type="claim", nameplate="5")
+        elif st == "claim-reclaimed":
+            o = b.conn("app", "s9")
+            b.send(o, type="claim", nameplate="5")
+            y = b.conn("app", "s1")
+            b.send(y, type="claim", nameplate="5")
+            b.send(y, type="release")
+            b.send(X, type="claim", nameplate="5")
+        elif st == "released":
+            b.send(X, type="claim", nameplate="5")
+            b.send(X, type="release")
+        elif st == "opened":
+            b.send(X, type="open", mailbox="mQ")
+        elif st == "open-crowded":
+            crowd()
+            b.send(X, type="open", mailbox="mQ")
+        elif st == "closed":
+            b.send(X, type="open", mailbox="mQ")
+            b.send(X, type="close")
+        elif st == "close-crowded":
+            crowd()
+            b.send(X, type="close", mailbox="mQ")
+        elif st == "stale":
+            b.send(X, type="open", mailbox="mQ")
+            y = b.conn("app", "s1")
+            b.send(y, type="close", mailbox="mQ", mood="happy")
+        elif st == "allocated+claimed+opened":
+            b.send(X, type="allocate")
+            b.send(X, type="claim", nameplate="5")
+            b.send(X, type="open", mailbox="mQ")
+        b.send(X, **cmd) if False else b.h.append(["send", X, dict(cmd)])
+        # probe: the connection is still usable
+        b.send(X, type="ping", ping=ci)
+        if st == "unbound":
+            b.send(X, type="bind", appid="app", side="s1")
+        b.send(X, type="list")
+        b.h.append(["send", X, dict(cmd)])      # and the same command once more
+        b.send(X, type="ping", ping="again")
+        out.append(("c17:%s:%d" % (st, ci), b.h, cfgs[p["cfg"]], {}))
+    return out
+
+
+@family("C17", "C06")
+def c17_cross_app_mailbox_id(params, tier):
+    """F8: the same explicit mailbox id in two apps (the protocol document says ids can be re-used)."""
+    if params is None:
+        return [{"cmd": c} for c in ("open", "close")]
+    b = HB()
+    A = b.conn("app", "s1")
+    b.send(A, type="open", mailbox="shared-id")
+    B = b.conn("app2", "s1")
+    if params["cmd"] == "open":
+        b.send(B, type="open", mailbox="shared-id")
+    else:
+        b.send(B, type="close", mailbox="shared-id", mood="happy")
+    return [("c17_cross_app_mailbox_id:%s" % params["cmd"], b.h, U, {})]
